@@ -638,3 +638,14 @@ Theorem c09_code_rtnext_vendor_pass : forall m rho tr idx sh h buf a mx ns0 F,
       rho' "iterator->_bitmap_shifter" = Z.shiftr sh 1 /\ rho' "iterator->_arg_index" = idx + 1.
 Proof. exact rtnext_code_vendor_pass. Qed.
 Print Assumptions c09_code_rtnext_vendor_pass.
+
+(* k absent arguments in a row: composition of whole passes by induction on their number - the run from rho with k more units of fuel
+   is the run from the state after k applications of the model's shift_next *)
+Theorem c09_code_rtnext_absent_run : forall m tr F (k : nat) rho idx sh,
+  rho "iterator->_arg_index" = idx -> rho "iterator->_bitmap_shifter" = sh ->
+  0 <= idx -> idx + Z.of_nat k < 2 ^ 31 - 1 -> 0 <= sh < 2 ^ 32 ->
+  (forall j, 0 <= j < Z.of_nat k -> Z.testbit sh j = false /\ (idx + j) mod 32 <> c_IEEE80211_RADIOTAP_EXT) ->
+  execg (13 + F + k) m rho tr body_ieee80211_radiotap_iterator_next =
+  execg (13 + F) m (absent_iter k rho idx sh) tr body_ieee80211_radiotap_iterator_next.
+Proof. exact rtnext_code_absent_run. Qed.
+Print Assumptions c09_code_rtnext_absent_run.
